@@ -1669,6 +1669,12 @@ func (x *Exec) loopRule(fr *Frame, hdr *ssa.BasicBlock, ord int, back bool, st *
 	for _, cell := range cells {
 		st.cells[cell] = st.fresh(cell.T, "loop|"+cell.name)
 	}
+	// the failed(callee) flags of `propagates` clauses are arbitrary at the loop head; invariants say what is known
+	if x.c != nil && fr.fn == x.fn {
+		for _, p := range x.c.Propagates {
+			st.ghostV[failedKey(p.Label)] = Const(freshName("loop|failed|"+p.Label), BoolS)
+		}
+	}
 	// a loop-level modifies clause narrows the whole-array havoc caused by calls in the body to the listed
 	// cells; that the body stays inside it is checked at the back edge (loopframe obligations)
 	var modHead map[string]*Term
